@@ -405,6 +405,33 @@ def r8(p, rep, rid="C14.R8"):
     rep.info["lockstep_lists"] = n
 
 
+def r9(p, rep):
+    rep.rule("C14.R9", "a cursor into a parallel list (the lengths of the bracketed target axes, walked while the coordinate tensors are split) is advanced by every arm that reads at it", "lint (sibling arms of one loop: read at the cursor vs `cursor += n`) with a positive self-check", floor=1)
+    import os
+
+    from sa.core import set_parents
+
+    n = 0
+    for f in p.funcs.values():
+        if not f.module.name.startswith("einx._src.adapter") or not isinstance(f.node, (ast.FunctionDef, ast.AsyncFunctionDef)):
+            continue
+        k, hits = common.cursor_advances(f.node)
+        n += k
+        for cur, loop, bad in hits:
+            st = bad[0][-1]
+            rep.violation("C14.R9", f"{f.qualname}:cursor({cur})", f"{f.module.rel}:{st.lineno}", f"an arm of the loop at line {loop.lineno} reads entries at the cursor `{cur}` but does not advance it, while its sibling arms do: every coordinate tensor that follows is matched with the entries of an earlier one (e.g. wrapped modulo the length of the wrong target axis), so updates land on the wrong elements")
+        if k and not hits:
+            rep.ok("C14.R9", f"{f.qualname}:cursors", f.loc, f"{k} cursor(s); every arm that reads at the cursor advances it")
+    pos = os.path.join(os.path.dirname(os.path.dirname(os.path.abspath(__file__))), "selftest", "positive", "cursor_advance.py")
+    tree = ast.parse(open(pos).read())
+    set_parents(tree)
+    fns = {x.name: x for x in tree.body if isinstance(x, ast.FunctionDef)}
+    if len(common.cursor_advances(fns["bad"])[1]) != 1 or common.cursor_advances(fns["good"])[1] or common.cursor_advances(fns["good"])[0] != 1:
+        raise AnalysisError("self-check of the cursor lint failed on selftest/positive/cursor_advance.py")
+    rep.ok("C14.R9", "self-check:positive-example", "selftest/positive/cursor_advance.py", "the lint reports the seeded positive example and is silent on its corrected twin")
+    rep.ok("C14.R9", "sweep", "einx/_src/adapter", f"{n} cursor(s) in the adapter layer", nontrivial=False)
+
+
 def run(p, rep, tier):
     r1(p, rep)
     r2(p, rep)
@@ -415,5 +442,6 @@ def run(p, rep, tier):
     r6(p, rep)
     r7(p, rep)
     r8(p, rep)
+    r9(p, rep)
     rep.assume("np.put flattens and cycles its values; ufunc.at, jnp .at[].set/add, torch.index_put_, tf.tensor_scatter_nd_* and x[idx] = v broadcast or require equal shapes")
     rep.info["undecided"] = "ravel arithmetic, accumulation of duplicates, untouched elements and get_at read-back are value-level and not decided"
